@@ -29,6 +29,12 @@ CONTEXTS = {
                     "lambda h: h.m({A}))))")]),
     9: ("registered function at depth 0", "fn",
         [("Select", "lambda e: {F}({A})")]),
+    10: ("call on the outer parameter AFTER a nested lambda that re-uses its name (tuple element)", "evt",
+         [("Select", "lambda e: (e.jets().Select(lambda e: e.m()), e.m({A}))")]),
+    11: ("call on the outer parameter AFTER a nested lambda that re-uses its name (right operand)", "evt",
+         [("Select", "lambda e: e.jets().Where(lambda e: e.m() > 0).Count() + e.m({A})")]),
+    12: ("two typed call sites in one lambda, the other one on another class with the same method name", "evt",
+         [("Select", "lambda e: {'a': e.jets().First().m(), 'b': e.m({A})}")]),
 }
 
 _universes = {}
@@ -234,4 +240,157 @@ def run_types_case(cid, ops, ns):
             break
     while len(rec["obs"]) < len(ops):
         rec["obs"].append({"res": "not-run", "ty": codec.T("ty", s="Any")})
+    return rec
+
+
+# ----------------------------------------------------------------------------------------------
+# C09: callbacks
+CB_CONTEXTS = {
+    # id: (description, [(op, lambda template)], stage index (1-based) whose lambda holds the sites, receiver)
+    0: ("depth 0 on the stream's item", [("Select", "lambda e: {C}")], 1, "e"),
+    1: ("depth 1 through a collection Select", [("Select", "lambda e: e.jets().Select(lambda j: {C})")], 1, "j"),
+    2: ("depth 2 inside a nested Where", [("Select", "lambda e: e.jets().Select(lambda j: j.trks().Where("
+                                                     "lambda t: {C} > 0))")], 1, "t"),
+    3: ("second stage: Where on the stream after SelectMany",
+        [("SelectMany", "lambda e: e.jets()"), ("Where", "lambda j: {C} > 0")], 2, "j"),
+    4: ("second stage, nested", [("Select", "lambda e: e.jets()"), ("Select", "lambda js: js.Select(lambda j: {C})")],
+        2, "j"),
+    5: ("depth 3", [("Select", "lambda e: e.jets().Select(lambda j: j.trks().Select(lambda t: t.hits().Select("
+                               "lambda h: {C})))")], 1, "h"),
+    6: ("on First() of a collection, then a later stage without sites",
+        [("Select", "lambda e: {C}"), ("Select", "lambda x: x + 1")], 1, "e.jets().First()"),
+    7: ("inside SelectMany's lambda at depth 1",
+        [("SelectMany", "lambda e: e.jets().Select(lambda j: {C})")], 1, "j"),
+}
+
+
+def cb_universe(pl, rw, log, params, owner):
+    import copy
+    from func_adl import func_adl_callable, func_adl_callback, func_adl_parameterized_call
+
+    def site_of(a):
+        if a.args and isinstance(a.args[0], ast.Constant):
+            return a.args[0].value
+        return -1
+
+    def rewrite(a):
+        a2 = copy.copy(a)
+        if isinstance(a.func, ast.Attribute):
+            a2.func = ast.Attribute(value=a.func.value, attr=a.func.attr + "_rw", ctx=ast.Load())
+        elif isinstance(a.func, ast.Name):
+            a2.func = ast.Name(id=a.func.id + "_rw", ctx=ast.Load())
+        return a2
+
+    def mk(kind):
+        def cb(s, a):
+            site = site_of(a)
+            log.append({"kind": kind, "site": site})
+            s2 = s.MetaData({"cb": kind, "site": site})
+            return s2, (rewrite(a) if rw else a)
+        return cb
+
+    def cb_param(s, a, param):
+        site = site_of(a)
+        log.append({"kind": "param", "site": site})
+        params.append(param)
+        s2 = s.MetaData({"cb": "param", "site": site})
+        return s2, (rewrite(a) if rw else a), int
+
+    cls_cb = mk("class") if pl in ("class", "both") else None
+    m_cb = mk("method") if pl in ("method", "both") else None
+    ns = {"Iterable": typing_iterable(), "func_adl_callback": func_adl_callback,
+          "func_adl_parameterized_call": func_adl_parameterized_call, "func_adl_callable": func_adl_callable,
+          "cls_cb": cls_cb, "m_cb": m_cb, "cb_param": cb_param, "decoy_cb": mk("decoy"), "fn_cb": mk("func")}
+    cdeco = "@func_adl_callback(cls_cb)\n" if cls_cb else ""
+    mdeco = "    @func_adl_callback(m_cb)\n" if m_cb else ""
+    pdeco = "    @func_adl_parameterized_call(cb_param)\n" if pl == "param" else ""
+    src = ""
+    chain = [("Hit", None), ("Trk", ("hits", "Hit")), ("Jet", ("trks", "Trk")), ("Evt", ("jets", "Jet"))]
+    for name, coll in chain:
+        # only the class of the receiver of the call sites carries the placement: a class-level callback
+        # fires for ANY method of its class, so the navigation methods must live on callback-free classes
+        mine = name == owner
+        src += f"{cdeco if mine else ''}class {name}:\n{mdeco if mine else ''}    def m(self, tag: int) -> int: ...\n"
+        src += f"{pdeco if mine else ''}    @property\n    def prop(self): ...\n"
+        if coll:
+            src += f"    def {coll[0]}(self) -> Iterable[{coll[1]}]: ...\n"
+        src += "\n"
+    src += "@func_adl_callback(decoy_cb)\nclass Other:\n    @func_adl_callback(decoy_cb)\n    def m(self, tag: int) -> int: ...\n\n"
+    if pl == "func":
+        src += "@func_adl_callable(fn_cb)\ndef cbfn(tag: int) -> int: ...\n"
+    else:
+        src += "@func_adl_callable()\ndef cbfn(tag: int) -> int: ...\n"
+    exec(compile(src, "<cb universe>", "exec"), ns)
+    return ns
+
+
+def typing_iterable():
+    from typing import Iterable
+    return Iterable
+
+
+def run_callback_case(cid, cs):
+    logging.disable(logging.WARNING)
+    from func_adl import EventDataset
+    log, params = [], []
+    desc, steps, site_stage, recv = CB_CONTEXTS[cs["ctx"]]
+    owner = {"e": "Evt", "j": "Jet", "t": "Trk", "h": "Hit", "e.jets().First()": "Jet"}[recv]
+    ns = cb_universe(cs["pl"], cs["rw"], log, params, owner)
+    sites = [101, 102] if cs["two"] else [101]
+
+    def call_src(site):
+        if cs["pl"] == "func":
+            return f"cbfn({site})"
+        if cs["pl"] == "param":
+            return f"{recv}.prop[7]({site})"
+        return f"{recv}.m({site})"
+
+    C = " + ".join(call_src(s) for s in sites)
+
+    class DS(EventDataset):
+        def __init__(self):
+            super().__init__(ns["Evt"])
+
+        async def execute_result_async(self, a, title=None):
+            return 0
+
+    rec = {"id": cid, "kind": "callbacks", "cs": cs, "fired": [], "upstream": [[] for _ in sites],
+           "calls": [codec.T("absent") for _ in sites], "params": [], "exc": "", "source": "ds"}
+    try:
+        s = DS()
+        for op, lam in steps:
+            text = lam.replace("{C}", C)
+            rec["source"] += f".{op}({text})"
+            s = getattr(s, op)(text)
+        rec["fired"] = list(log)
+        rec["params"] = [p if isinstance(p, int) else -1 for p in params]
+        # the operator nodes of the stages, bottom-up numbering
+        node = s.query_ast
+        stage_nodes = []
+        while isinstance(node, ast.Call) and isinstance(node.func, ast.Name) and node.func.id != "EventDataset":
+            if node.func.id in ("Select", "SelectMany", "Where"):
+                stage_nodes.append(node)
+            node = node.args[0]
+        stage_nodes.reverse()
+        opnode = stage_nodes[site_stage - 1]
+        ups = []
+        node = opnode.args[0]
+        while isinstance(node, ast.Call) and isinstance(node.func, ast.Name) and node.func.id != "EventDataset":
+            if node.func.id == "MetaData":
+                d = ast.literal_eval(node.args[1])
+                if isinstance(d, dict) and "cb" in d:
+                    ups.append({"kind": d["cb"], "site": d["site"]})
+            node = node.args[0]
+        rec["upstream"] = [ups for _ in sites]
+        for i, site in enumerate(sites):
+            for n in ast.walk(opnode.args[1]):
+                if isinstance(n, ast.Call) and n.args and isinstance(n.args[0], ast.Constant) \
+                        and n.args[0].value == site:
+                    rec["calls"][i] = codec.enc(n)
+                    break
+        rec["query"] = ast.unparse(s.query_ast)
+    except Exception as e:
+        rec["exc"] = type(e).__name__
+        rec["msg"] = str(e)[:160]
+        rec["fired"] = list(log)
     return rec
